@@ -90,6 +90,10 @@ type State struct {
 	inited        map[*ssa.Function]bool
 	pcSeen        map[string]bool
 	speculating   bool
+	rangeCount    int
+	mapOrderInstance int
+	mapSite       string
+	curSite       string
 	merges        int
 }
 
